@@ -163,6 +163,20 @@ func FramedScript(prelude string, snippets []string) []byte {
 	return b.Bytes()
 }
 
+// FramedScriptFlat is FramedScript without the per-case subshell: a fork costs
+// several milliseconds on this machine (and far more with 14 workers forking at
+// once), so cases that cannot exit, change state that matters or fail to parse
+// are run directly in the batch shell.
+func FramedScriptFlat(prelude string, snippets []string) []byte {
+	var b bytes.Buffer
+	b.WriteString(prelude)
+	b.WriteString("\n")
+	for i, s := range snippets {
+		fmt.Fprintf(&b, "%s\nprintf '\\001%%s:%%d\\002\\n' %d $?\n", s, i)
+	}
+	return b.Bytes()
+}
+
 // Frame is one case's output and status.
 type Frame struct {
 	Out    []byte
